@@ -115,7 +115,9 @@ def part_a(d, tier, seed):
     cases = []
     n = 0
     for si, sh in enumerate(shapes):
-        for f in range(fills):
+        # a document that already holds a typegen entry is written with every settings variant (set and unset options)
+        nf = max(fills, len(variants)) if "typegen" in sh["plugins"] or "both" in sh["plugins"] else fills
+        for f in range(nf):
             idx = seed + si * 7 + f * 3
             text = render_doc(sh["doc"], idx)
             sv = variants[(si + f) % len(variants)]
